@@ -52,11 +52,12 @@ func spellingsOf(key string) []keySpelling {
 		if q == gen.NDQ {
 			qn = "dq"
 		}
-		for mode := 0; mode < 3; mode++ {
+		for mode := 0; mode < 4; mode++ {
 			out = append(out, keySpelling{fmt.Sprintf("%s-mode%d", qn, mode), "[" + gen.QuoteName(key, q, mode) + "]", false})
 		}
 		if strings.ContainsRune(key, 0xfffd) {
 			out = append(out, keySpelling{qn + "-lone-surrogate", "[" + gen.QuoteNameSurrogate(key, q) + "]", false})
+			out = append(out, keySpelling{qn + "-lone-surrogate-all-escaped", "[" + gen.QuoteNameSurrogateAll(key, q) + "]", false})
 		}
 	}
 	if gen.DotLegal(key) {
